@@ -108,6 +108,30 @@ def scanAll (m : Meta) (numRows : Nat) (rest : Bytes) : ROut :=
   if destLen m > destCap then (if numRows = 0 then .ok 0 else .err 0)
   else scanLoop m.cols (destLen m) numRows 0 rest
 
+/-! ### allocation of the row consumers (Scan loops, Scanner, MapScan, SliceMap, RowData)
+
+None of them allocates from the ANNOUNCED row count: what a consumer allocates is per row it actually
+scans (one destination slot / map entry / value per destination, `destLen`) plus the cell bytes it
+copies. The model's allocation counter is in those units; the number of rows scanned is bounded by the
+bytes of the row set (every described column costs at least its 4-byte length: Proofs/C05Rows.lean
+`rows_scanned_le_body`), whatever `numRows` says. -/
+
+/-- rows a consumer got through (the row an error occurred in not counted) -/
+def ROut.rows : ROut → Nat
+  | .ok k => k
+  | .capped => rowCap
+  | .err k => k
+  | .crash _ => 0
+
+/-- allocation counter of a row consumer, in units: per row scanned (plus the one an error ends in) one
+unit per destination and one for the row itself, plus the bytes of the row set -/
+def consumeUnits (m : Meta) (numRows : Nat) (rest : Bytes) : Nat :=
+  ((scanAll m numRows rest).rows + 1) * (destLen m + 1) + rest.length
+
+/-- the bound, a function of the received bytes and the described destinations only -/
+def consumeBound (m : Meta) (rest : Bytes) : Nat :=
+  (rest.length / 4 + 1) * (destLen m + 1) + rest.length
+
 /-! ### Iter.RowData (the destinations of MapScan / SliceMap): helpers.go goType
 
 `TypeInfo.NewWithError` → `goType` builds a reflect.Type per column; for a map it calls
